@@ -115,6 +115,32 @@ def run_listby(case, ctx):
             ok3 = sum(sizes) == n and st3 == 'ok' and collections.Counter(rowkey(dict(r)) for r in ug2) == collections.Counter(rowkey(r) for r in rows)
             ctx.check('ungroup_multiset', ok3, lambda: 'after one ungroup() the grouped table changed: sub-table sizes %s (len(d)=%d); second ungroup %s' % (sizes, n, [dict(r) for r in ug2] if st3 == 'ok' else ug2))
     ctx.check('operands_unchanged', core.snap_same(core.snap(dict(d)), snap0), lambda: 'table modified')
+    if case.get('phase2') and n >= 2:
+        # the same table object after a key column was reassigned in place: nothing remembered from the first call may leak
+        c0 = keys[0]
+        col = list(d[c0])
+        d[c0] = col[1:] + col[:1]
+        rows2 = [dict(r) for r in d]
+        g2 = groups(rows2, keys)
+        if how == 'listby':
+            st3, lb2 = ctx.call(d.listby, *keys)
+            ok3 = st3 == 'ok' and len(lb2) == len(g2)
+            if ok3:
+                for r in lb2:
+                    k = tuple(r[c] for c in keys)
+                    m = [rs for kk, rs in g2 if keq(kk, k)]
+                    if len(m) != 1 or any(not same(r[c], [x[c] for x in m[0]]) for c in others):
+                        ok3 = False
+        else:
+            st3, gb2 = ctx.call(d.groupby, *keys)
+            ok3 = st3 == 'ok' and len(gb2) == len(g2)
+            if ok3:
+                for r in gb2:
+                    k = tuple(r[c] for c in keys)
+                    m = [rs for kk, rs in g2 if keq(kk, k)]
+                    if len(m) != 1 or len(r['grp']) != len(m[0]) or any(not same(dict(a), {c: b[c] for c in others}) for a, b in zip(r['grp'], m[0])):
+                        ok3 = False
+        ctx.check('repeat_after_key_reassignment', ok3, lambda: '%s repeated on the same table after reassigning key column %r disagrees with the model groups %s' % (how, c0, g2))
     if len(g) >= 2 and any(len(rs) >= 2 for _, rs in g):
         ctx.mark_nontrivial(case)
     ctx.cls(how)
@@ -198,11 +224,13 @@ def gen_case(rng):
     n = rng.choice([0, 1, 2, 3, 4, 5, 6, 8, 10]) if how != 'pivot' else rng.choice([1, 2, 3, 4, 5, 6, 8, 10])
     if how == 'pivot':
         nx = rng.choice([1, 1, 2])
-        x = ['a', 'b'][:nx]
+        x = rng.choice([['a', 'b'], ['id1', 'tk'], ['ticker', 'p2']])[:nx]
         kinds = [rng.choice(['int', 'str', 'num', 'dt', 'mixed']) for _ in x]
         cols = {c: [kcell(rng, k) for _ in range(n)] for c, k in zip(x, kinds)}
         ykind = rng.choice(['str', 'int', 'both'])
         ypool = {'str': ['p', 'q', 'r'], 'int': [1, 2, 3], 'both': ['p', 'q', 1, 2]}[ykind]
+        if x[0] != 'a':
+            ypool = {'str': ['tick', 'e', 'd', 'q'], 'int': [1, 2, 3], 'both': ['t', 'k', 1, 2]}[ykind]     # labels that are substrings of an x column name
         cols['y'] = [rng.choice(ypool) for _ in range(n)]
         cols['z'] = [rng.choice([0, 1, 2.5, 'u', 'v', 7, {'$nan': rng.randrange(9)}]) for _ in range(n)]
         agg = rng.choice([None, None, 'first', 'last', 'len', ['last'], ['first']])
@@ -218,7 +246,7 @@ def gen_case(rng):
         else:
             cols[c] = gen.cells(rng, n, nan=0.1)
     cols['id'] = list(range(n))
-    return {'how': how, 'cols': cols, 'keys': keys, 'star': rng.random() < 0.7}
+    return {'how': how, 'cols': cols, 'keys': keys, 'star': rng.random() < 0.7, 'phase2': rng.random() < 0.3}
 
 
 def plan(tier, seed, n):
